@@ -148,6 +148,22 @@ class Stacker(Transformer):
                 "Data to be transformed has different coordinates than the data used to fit."
             )
 
+    def _align_transform_feature_coords(self, X: Data) -> Data:
+        """Reorder feature coordinates that contain the labels seen during fit in a different order."""
+        for dim in self.dims_mapping[self.feature_name]:
+            if dim not in X.dims or dim not in X.indexes or dim not in self.coords_in:
+                continue
+            given = X.indexes[dim]
+            expected = self.coords_in[dim].to_index()
+            if (
+                not given.equals(expected)
+                and given.is_unique
+                and given.size == expected.size
+                and given.isin(expected).all()
+            ):
+                X = X.sel({dim: expected})
+        return X
+
     def _reorder_dims(self, X: DataVarBound) -> DataVarBound:
         """Reorder dimensions to original order; catch ('mode') dimensions via ellipsis"""
         order_input_dims = [
@@ -397,6 +413,11 @@ class Stacker(Transformer):
         """
         # Test whether sample and feature dimensions are present in data array
         self._validate_transform_dimensions(X)
+
+        # Feature coordinates holding the same labels as during fit, but in another
+        # order (e.g. data reconstructed by the model itself, which comes back sorted),
+        # are aligned with the order seen during fit
+        X = self._align_transform_feature_coords(X)
 
         # Check if data to be transformed has the same feature coordinates as the data used to fit the stacker
         self._validate_transform_feature_coords(X)
